@@ -20,7 +20,10 @@ type C08 struct {
 	BaseChecker
 	former map[string]map[string]bool // entity -> former role holders
 	nt     bool
+	ghost  *roleGhost
 }
+
+func (c *C08) Init(w *World) { c.ghost = newRoleGhost(w.Cur) }
 
 func init() {
 	RegisterChecker("C08", func() Checker { return &C08{former: map[string]map[string]bool{}} })
@@ -538,6 +541,12 @@ func (c *C08) AfterTx(w *World, t *TxCtx) {
 	// R3: sealing is permanent; a sealed batch row never changes
 	c.sealCheck(w, pre, post, "tx["+t.Step.Note+"]")
 	if w.Viol != nil || !t.Res.OK {
+		return
+	}
+	// the stored role assignment must be what genesis and the accepted messages make it
+	c.ghost.apply(t)
+	if what, detail := c.ghost.diff(post); what != "" {
+		w.Violate("R2", "role-state-differs-from-accepted-messages/"+what, "after tx [%s]: %s", t.Step.Note, detail)
 		return
 	}
 	if len(t.Msgs) != 1 {
